@@ -382,10 +382,13 @@ impl Check for C11 {
                     // the per-member defect model only applies where the program has an intersection the compiler does
                     // not merge (a named / interface member, an index signature, or the same key declared differently)
                     let unmerged = case.used.contains_key("inter_unmerged_or_named");
+                    // types spelled with Exclude are re-materialised from the semantic engine and inherit its listed
+                    // findings (here typically `{}` absorbing the other object members of a union)
+                    let plain = if case.used.contains_key("exclude") { "c11_strict_membership:program_uses_exclude" } else { "c11_strict_membership" };
                     let sig = match explain(&case.env, d, v, Mode::Strict, g_strict) {
-                        Some("strict_inter_per_member") if !unmerged => "c11_strict_membership",
+                        Some("strict_inter_per_member") if !unmerged => plain,
                         Some(q) => q,
-                        None => "c11_strict_membership",
+                        None => plain,
                     };
                     out.mismatch(
                         ctx,
